@@ -146,6 +146,7 @@ def deserialize(serializable_x):
             return {k: deserialize(v) for k, v in serializable_x["data"].items()}
         elif data_type == "set":
             return {deserialize(v) for v in serializable_x["data"]}
+        raise ValueError(f"Unknown type {data_type!r} of a serialized value.")
     elif isinstance(serializable_x, list):
         return [deserialize(v) for v in serializable_x]
     else:
